@@ -180,8 +180,44 @@ def lpc_task(m, N):
     return Task("lpc.real.N%d.p%d" % (m, N), run, kind="bounded", prerun=True, timeout=120, functions=["spectrum.lpc.lpc", "spectrum.tools.nextpow2"])
 
 
+def norm_task():
+    """the statement is about the BIASED autocorrelation: a pyule object built without an explicit norm uses it, and whatever
+    norm the object holds is the one its __call__ hands to aryule (recording stub; exact domain, tiny concrete sizes)"""
+    def run(tc):
+        names = ["x%d" % j for j in range(5)] + ["a0", "a1", "P", "k0", "k1", "pi"]
+        seen = []
+
+        def aryule_stub(I_, X, order, norm="biased", *rest, **kw):
+            seen.append(norm)
+            a = Arr.from_items([dom.sym("a0"), dom.sym("a1")], dtype="float")
+            k = Arr.from_items([dom.sym("k0"), dom.sym("k1")], dtype="float")
+            return (a, dom.sym("P"), k)
+        dom, I = e3_interp(tc, names, stubs={"spectrum.yulewalker.aryule": aryule_stub})
+        E = E3(tc, dom, "pyule_norm", {}, tc.seed)
+        x = Arr.from_items([dom.sym("x%d" % j) for j in range(5)], dtype="float")
+        for given in (None, "biased", "unbiased"):
+            seen.clear()
+
+            def thunk(I_, given=given):
+                kw = {"NFFT": 4}
+                if given is not None:
+                    kw["norm"] = given
+                o = I_.call(I_.class_ref("spectrum.yulewalker.pyule"), [x, 2], kw)
+                I_.call(o, [], {})
+                return o
+            o = E.run(I, thunk)
+            if o is None:
+                return
+            want = given or "biased"
+            label = "default" if given is None else given
+            E.ok("pyule(norm=%s):aryule-called-once" % label, len(seen) == 1, "%d calls" % len(seen))
+            if seen:
+                E.ok("pyule(norm=%s):aryule-receives-norm=%s" % (label, want), seen[0] == want, "aryule received norm=%r" % (seen[0],))
+    return Task("ctor.pyule.norm", run, kind="bounded", functions=["spectrum.yulewalker.pyule.__init__", "spectrum.yulewalker.pyule.__call__"])
+
+
 def tasks(tier):
-    ts = []
+    ts = [norm_task()]
     for (m, N) in ([(3, 1), (3, 2), (4, 1), (4, 2)] if tier == "quick" else [(2, 1), (3, 1), (3, 2), (4, 1), (4, 2), (4, 3)]):
         ts.append(lpc_task(m, N))
     sizes = [(4, 1), (5, 2)] if tier == "quick" else [(4, 1), (5, 2), (6, 3)]
